@@ -12,8 +12,16 @@ CHECKS = {
  "C08": ("E3 seqhist", "model_checking", E3 + "; oracle: reset semantics + reset API presence by reflection",
          "Same exploration with Reset<M>Calls and ResetCalls in the alphabet where generated: the model clears exactly the named list(s); presence of the reset methods must equal the -with-resets flag for every mock of both legs.",
          "The CLI flag plumbing (-with-resets -> WithResets) is exercised by the E5 CLI leg when built.", "5/C08, 4.3"),
+ "C05": ("E4 sched", "model_checking", "stateless exhaustive exploration of thread interleavings (iterative preemption bounding) on the instrumented compiled mock under a controlled scheduler; vector-clock happens-before race detection; brute-force linearizability per method list",
+         "The emitted mocks of Two{M(a int,b string)(int,error); N(xs ...int)} and Void{P(); Q(x Loc)} under stub x with-resets are instrumented after generation (sync import -> API-identical shim, access hook before every receiver-field access) and every interleaving of 1-3 threads x 1-2 operations (calls, accessor reads, both resets; MFunc returning, re-entering, resetting, blocked) with at most 2 (thorough 3) preemptions is executed. Per execution: no happens-before race, no unlock of an unlocked mutex, each method's call/return history linearizable against an atomic append-only list with snapshot and reset, no torn or lost record, snapshots are prefixes.",
+         "Scheduling only at synchronisation operations is complete for race-free code; race freedom is itself checked per execution. RWMutex modelled with Go's writer preference. Function fields are not reassigned during an execution.", "5/C05, 4.4"),
+ "C06": ("E4 sched", "model_checking", "same exploration as C05; oracle: deadlock (no enabled thread) in any explored schedule, incl. re-entrant and blocked callbacks",
+         "Same scenarios as C05 with callback programs that call M again, read MCalls, call ResetMCalls / ResetCalls / N, or block on a gate that opens only after another thread completed an operation on the same mock; a state with unfinished threads and none enabled is a deadlock. 1-thread re-entrant scenarios decide 'lock held across the callback' under every schedule.",
+         "Same trusted base as C05.", "5/C06, 4.4"),
 }
 ENGINES = [
+ {"name": "E4 sched", "path": "/verif/rt/sched + /verif/rt/e4rt + /verif/rt/shimsync + /verif/mc/cmd/vcheck/e4.go", "serves_properties": ["C05", "C06"],
+  "kind_free_text": "controlled cooperative scheduler + preemption-bounded DFS over real instrumented generated code"},
  {"name": "E3 seqhist", "path": "/verif/rt/e3rt + /verif/mc/cmd/vcheck/e3.go", "serves_properties": ["C03", "C04", "C07", "C08"],
   "kind_free_text": "stateless exhaustive exploration of operation histories on compiled mocks with a reference list model"},
 ]
